@@ -363,6 +363,13 @@ fn run_batch(cfg: &Value) -> Value {
         }
     }
     env::set_forced(&cfg["forced"]);
+    if cfg["verify_each"].as_bool().unwrap_or(false) {
+        // every member verified on its own (one verify_batch call per member and action)
+        let each: Vec<Value> = (0..statements.len())
+            .map(|i| Value::Array(run_verify(cfg, &vtranscripts[i..i + 1], &statements[i..i + 1], &proofs[i..i + 1])))
+            .collect();
+        return json!({"members": members_info, "prove": prove_out, "tamper": tamper_info, "verify": Value::Null, "verify_each": each, "hook": hook_json()});
+    }
     let verify_out = run_verify(cfg, &vtranscripts, &statements, &proofs);
     json!({"members": members_info, "prove": prove_out, "tamper": tamper_info, "verify": verify_out, "hook": hook_json()})
 }
